@@ -1,5 +1,5 @@
 import WacProofs.Lemmas.SemverAgree
-import WacProofs.Lemmas.Screen
+import WacProofs.Lemmas.C12Screen
 import WacProofs.Lemmas.LexSpec
 import WacProofs.Lemmas.NonEmpty
 import WacProofs.Lemmas.InterfaceSound
